@@ -317,3 +317,28 @@ def correspond(ctx, corr):          # noqa: F811
     _hist_correspond(ctx, corr)
     exe = adj_harness(ctx)
     run_env_state(ctx, corr, exe, ctx.size(200, 6000), ctx.size(25, 100))
+
+
+# ---------------------------------------------------------------------------
+# streams 4-8: full solvers (chol/gso/svd + SVD), class Adj, LocalNetwork cascade (tools/props/c04_full.py)
+from props import c04_full  # noqa: E402
+
+PROPS_FILES = PROPS_FILES + c04_full.PROPS_FILES
+LEAN_TARGETS = LEAN_TARGETS + c04_full.LEAN_TARGETS
+DRIVERS = DRIVERS + c04_full.DRIVERS
+
+
+def translate(ctx):
+    c04_full.translate(ctx)          # regenerates lean/Gama/Gen/NetCascade.lean from network.h/.cpp
+
+
+_env_correspond = correspond
+
+
+def correspond(ctx, corr):          # noqa: F811
+    _env_correspond(ctx, corr)
+    c04_full.run_full_state(ctx, corr)
+    c04_full.run_adj_state(ctx, corr)
+    c04_full.run_net_cascade(ctx, corr)
+    c04_full.run_plain_heap(ctx, corr)
+    c04_full.run_corpus_programs(ctx, corr)
